@@ -284,5 +284,34 @@ def run(ctx):
     ctx.floor("delimiter searches in URI parsers", n_split, 6)
     from . import controls
     controls.sites(ctx, "C11.sites")
+    # ---- one codec for the query on both sides --------------------------------------------------------------------------------------
+    ctx.rule("C11.query-codec", "a URI type that writes query values with the form-urlencoded serializer (space -> `+`) reads them with the form-urlencoded "
+                                "parser (Url::query_pairs / form_urlencoded::parse); a reader that only percent-decodes keeps the `+`")
+    MU = "ruma_common::identifiers::matrix_uri::"
+    for ty in ("MatrixUri", "MatrixToUri"):
+        disp = w.lookup(f"<{MU}{ty} as core::fmt::Display>::fmt")
+        parse = w.lookup(f"{MU}{ty}::parse")
+        if disp is None or parse is None or "body" not in disp or "body" not in parse:
+            ctx.missing("C11.query-codec", f"C11.query-codec:{ty}", "Display or parse not found")
+            continue
+        def fam_calls(f0):
+            fam = [f0] + [h for h in w.all_fns() if "body" in h and h["path"].startswith(f0["path"] + "::{closure")]
+            # private helpers of the module called from it (one level)
+            for _, c in list(M.calls(f0["body"])):
+                h = w.lookup(M.callee_name(c))
+                if h is not None and "body" in h and M.callee_name(c).startswith(MU) and h not in fam:
+                    fam.append(h)
+            return {M.callee_name(c) for g in fam for b_ in M.all_bodies(g) for _, c in M.calls(b_)}
+        wc, rc = fam_calls(disp), fam_calls(parse)
+        writes_form = any(c.startswith("form_urlencoded::byte_serialize") or "form_urlencoded::Serializer" in c for c in wc)
+        reads_form = any(c in ("url::Url::query_pairs", "form_urlencoded::parse") for c in rc)
+        reads_raw = any(c == "url::Url::query" for c in rc)
+        if writes_form:
+            ctx.check(reads_form and not reads_raw, "C11.query-codec", f"C11.query-codec:{ty}", w.where(parse),
+                      bad_msg=f"{ty}'s Display writes query values with form_urlencoded (a space becomes `+`) but parse "
+                              f"{'takes the raw query (Url::query) and decodes it itself' if reads_raw else 'does not use the form-urlencoded parser'}: "
+                              f"`action=send+message` is read back as `send+message`")
+        else:
+            ctx.ok("C11.query-codec", f"C11.query-codec:{ty}", w.where(parse), "Display does not use the form-urlencoded serializer" + (" (parse does: `+` in a written value is percent-encoded, see C11.encode)" if reads_form else ""))
     ctx.assumptions += ["percent-encoding / form_urlencoded / url crates behave as documented", "round-trip equality for all values is not decided"]
     ctx.samples += [{"id": "@a%41:example.org", "needs": "'%' in the encode set, otherwise it parses back as @aA:example.org"}]
